@@ -2,11 +2,11 @@
 
 use super::c05::{apply_rx_op, mutate, op_packets, rx_op, Mutation, RxOp};
 use crate::common::*;
-use crate::engine::{bx, hash_of, GenPart, Property, Stats, Tier};
+use crate::engine::{bx, hash_of, EnumPart, GenPart, Property, Stats, Tier};
 use dvb_gse_rust::gse_decap::{DecapMemoryError, DecapStatus, GseDecapMemory};
 use proptest::prelude::*;
 use serde::{Deserialize, Serialize};
-use serde_json::json;
+use serde_json::{json, Value};
 
 #[derive(Clone, Debug, PartialEq, Eq, Hash, Serialize, Deserialize)]
 pub enum Pre {
@@ -153,12 +153,93 @@ fn check(c: &Case, st: &mut Stats) -> Result<(), String> {
     Ok(())
 }
 
+// ---- every short poisoning history over a fixed alphabet ----------------------------------------------
+
+const N_ALPHA: u64 = 20;
+
+fn enum_alphabet() -> Vec<Pre> {
+    let a = Lab::Six(ALPHA6[0]);
+    let train = |lab: Lab, id: u8, len: u16, upto: u8| RxOp::Train { lab, id, len, cut: 5, upto };
+    vec![
+        Pre::Op(RxOp::Provision(0)),
+        Pre::Op(RxOp::Provision(2)),
+        Pre::Drain,
+        Pre::OpenAllSlots,
+        Pre::Op(RxOp::Reset),
+        Pre::Op(RxOp::Complete { lab: a, len: 10 }),
+        Pre::Op(RxOp::Complete { lab: Lab::ReUse, len: 10 }),
+        Pre::Op(RxOp::Complete { lab: a, len: 200 }),
+        Pre::Op(train(a, 0, 20, 1)),
+        Pre::Op(train(a, 0, 20, 2)),
+        Pre::Op(train(a, 0, 20, 3)),
+        Pre::Op(train(a, 2, 20, 1)),
+        Pre::Op(train(Lab::ReUse, 1, 20, 1)),
+        Pre::Op(train(a, 0, 200, 1)),
+        // whole train with every packet cut in half / with its last byte (CRC, payload) corrupted
+        Pre::Mutated { op: train(a, 0, 20, 3), muts: vec![Mutation { kind: 2, at: 0x8000, val: 0 }] },
+        Pre::Mutated { op: train(a, 1, 20, 3), muts: vec![Mutation { kind: 1, at: 0xFFFF, val: 3 }] },
+        Pre::Op(RxOp::Raw(vec![0xC0])),
+        // end / intermediate fragments of frag id 0 out of the blue
+        Pre::Op(RxOp::Raw(vec![0x70, 0x08, 0x00, 1, 2, 3, 0xDE, 0xAD, 0xBE, 0xEF])),
+        Pre::Op(RxOp::Raw(vec![0x30, 0x04, 0x00, 1, 2, 3])),
+        Pre::Mutated { op: RxOp::Complete { lab: a, len: 10 }, muts: vec![Mutation { kind: 5, at: 0x0100, val: 0 }] },
+    ]
+}
+
+fn enum_depth(t: Tier) -> u32 {
+    t.pick(4, 6)
+}
+
+fn enum_size(t: Tier) -> u64 {
+    6 * (1..=enum_depth(t)).map(|k| N_ALPHA.pow(k)).sum::<u64>()
+}
+
+fn enum_case(t: Tier, i: u64) -> Case {
+    let alpha = enum_alphabet();
+    let probe = i % 6;
+    let mut i = i / 6;
+    let mut k = 1;
+    while k < enum_depth(t) && i >= N_ALPHA.pow(k) {
+        i -= N_ALPHA.pow(k);
+        k += 1;
+    }
+    let mut prefix = vec![];
+    for _ in 0..k {
+        prefix.push(alpha[(i % N_ALPHA) as usize].clone());
+        i /= N_ALPHA;
+    }
+    Case {
+        slots: 2,
+        pdu_size: 20,
+        prefix,
+        probe1_lab: Lab::Six(ALPHA6[1]),
+        probe1_len: 10,
+        probe2_lab: Lab::Three(ALPHA3[0]),
+        probe2_id: [0u8, 1, 5][(probe % 3) as usize],
+        probe2_len: 17,
+        probe2_cuts: vec![4, 6],
+        probe2_ext: probe >= 3,
+    }
+}
+
+fn check_enum(i: u64, st: &mut Stats) -> Result<(), String> {
+    check(&enum_case(st.tier, i), st)
+}
+
 pub fn property() -> Property {
     Property {
         id: "C16",
         rule: "prefix of 0..30/40 steps over {provisioning (ok, +1, huge, too small), valid complete packets and (un)finished trains with any label incl. re-use and zero, resets, raw bytes, all of these mutated (bit flips, truncation, overwrite, garbage, GSE length), draining the free list, opening an unfinished train on every slot} on memories of 1..4 slots; then the recovery protocol of the statement: reset_last_label, provision one buffer (StorageOverflow accepted as 'free list full'), probe 1 = valid complete packet with a 3/6-byte or broadcast label, provision again, probe 2 = valid fragmented PDU (2..4 fragments) on any frag id. oracle: both probes are delivered byte-exact with their metadata. Panics inside the prefix are counted (C05's subject), the probes are still judged. non-trivial = the prefix left an open context, an empty or full free list, or ended with an error",
         assumptions: &["probe PDUs are no larger than the configured storage size, so any buffer the memory accepted can hold them"],
-        parts: vec![Box::new(GenPart {
+        parts: vec![Box::new(EnumPart {
+            name: "all-short-poisonings",
+            rule: "2-slot receiver (storage size 20): every prefix of 1..=4 (thorough 1..=6) steps over 20 (provision exact / huge, drain, open every slot, reset, complete packets valid / re-use / too large, trains on ids 0, 1, 2 left open after 1 or 2 packets or finished, re-use first fragment, oversize first fragment, a train cut in half, a train with a corrupted last byte, 1-byte buffer, stray end and intermediate fragments, a complete packet with a wrong GSE length) x probe 2 on frag id 0 / 1 / 5, with and without extensions; exhaustive for that alphabet and depth; same recovery protocol and oracle",
+            size: enum_size,
+            exhaustive: |_| true,
+            check: check_enum,
+            describe: |t, i| serde_json::to_value(enum_case(t, i)).unwrap_or(Value::Null),
+            required_classes: &["prefix-leaves-open-context", "prefix-ends-with-empty-free-list", "prefix-ends-with-error", "probe2-with-extensions", "free-list-full-at-recovery"],
+        }), Box::new(GenPart {
             name: "poison-then-probe",
             rule: "see property rule",
             cases: (1_200_000, 20_000_000),
